@@ -309,6 +309,22 @@ fn relabel(o: &mut Outcome, case: &Value) {
         if check(&t.bytes) == Some(true) {
             o.violate("pay-token-accepted-as-closing-signature", "merchant::Config::check_close_signature", format!("channel {}: the customer's pay token passes the close check for the close state sharing its other fields", ci));
         }
+        // ... and with the state's nonce written into any 32-byte field of the close state the
+        // wire format carries (if the close tag travels as data, the pay token IS a signature on
+        // the "close state" whose tag is the nonce)
+        for ai in 0..closing.atoms.len() {
+            let a = &closing.atoms[ai];
+            if a.len != 32 || !a.path.starts_with("close_state") {
+                continue;
+            }
+            let mut t2 = t.clone();
+            t2.set_atom(ai, img.get("state.nonce"));
+            o.bump("fault.retype.pay-token-with-nonce-in-close-state-field");
+            o.events += 1;
+            if check(&t2.bytes) == Some(true) {
+                o.violate("pay-token-accepted-as-closing-signature", "merchant::Config::check_close_signature", format!("channel {}: the pay token passes the close check once the state's nonce is written into `{}` of the closing message", ci, a.path));
+            }
+        }
         // reference relation both ways, on the messages read from the image
         let id = refc::sc_raw(img.get("state.channel_id"));
         let nonce = refc::sc(img.get("state.nonce"));
@@ -360,8 +376,11 @@ fn channel_id_clause(o: &mut Outcome, seed: u64) {
     let (ma, ca) = (s.bytes(la), s.bytes(lb));
     let base = mk(&mr, &cr, pk, &ma, &ca);
     o.events += 1;
-    if mk(&mr, &cr, pk, &ma, &ca) != base {
-        o.violate("channel-id-not-deterministic", "ChannelId::new", "identical inputs give different ids".into());
+    for _ in 0..12 {
+        if mk(&mr, &cr, pk, &ma, &ca) != base {
+            o.violate("channel-id-not-deterministic", "ChannelId::new", "identical inputs give different ids".into());
+            break;
+        }
     }
     // every id computed for a different input tuple must be different from every other one (not
     // only from the base): a derivation that remembers anything between calls would otherwise hide
